@@ -122,3 +122,70 @@ Theorem C18_run_prefix : forall (uw ud : N -> bool) ls p acc X, lexs_ok ls X = t
   run uw ud (List.length ls) (with_rest p (raws ls ++ X)) acc (with_rest (lex_nexts p ls) X) (rev (lex_items p ls) ++ acc).
 Proof. exact run_prefix. Qed.
 Print Assumptions C18_run_prefix.
+
+(* ---- file level for prefixes that also hold comments and plain strings (Proofs/LexPrefix2.v): the prefix lexemes are the
+   simple ones above (PS l), block comments over one or several lines with a body satisfying bodym_ok (PBlock), // comments
+   with plain content followed by a newline (PLine) and string literals with plain content (PStr); lexs_ok2 is the decidable
+   boundary condition.  In particular the file may start with the 42 header (C18_header_program_meets_conditions: the
+   repository's sample header, an empty line and a function in front of the renamed identifier).  Prefixes holding character
+   constants, prefixed or escaped strings, multi-character operators, floats or preprocessor lines stay under the _partial
+   theorem plus the test on the real lexer. *)
+From NV Require Import Proofs.LexPrefix2.
+
+Theorem C18_rename_file_obs2 : forall (uw ud : N -> bool) ls c v c' v' r items xf guard f,
+  lexs_ok2 ls ((c :: v) ++ r) = true -> lexs_ok2 ls ((c' :: v') ++ r) = true ->
+  ident_site c v r -> ident_site c' v' r -> List.length v' = List.length v ->
+  assoc (c :: v) keywords = None -> assoc (c' :: v') keywords = None ->
+  pair_ok guard (c :: v, c' :: v') = true -> rename_inv f = true -> no_other f = true ->
+  lex uw ud (raws2 ls ++ (c :: v) ++ r) = Ok (items, xf) ->
+  let x := lex_nexts2 pos0 ls in
+  exists later t t',
+    items = lex_items2 pos0 ls ++ ITok t (off x) (off x + S (List.length v)) :: later /\
+    lex uw ud (raws2 ls ++ (c' :: v') ++ r) = Ok (lex_items2 pos0 ls ++ ITok t' (off x) (off x + S (List.length v)) :: later, xf) /\
+    t_type t' = t_type t /\ t_line t' = t_line t /\ t_col t' = t_col t /\
+    t_val t = Some (c :: v) /\ t_val t' = Some (c' :: v') /\
+    forall o1 o2, eval_obs guard o1 f (c' :: v') = eval_obs guard o2 f (c :: v).
+Proof. exact rename_file_obs2. Qed.
+Print Assumptions C18_rename_file_obs2.
+
+(* lookahead locality on such a prefix *)
+Theorem C18_run_prefix2 : forall (uw ud : N -> bool) ls p acc X, lexs_ok2 ls X = true ->
+  run uw ud (List.length ls) (with_rest p (raws2 ls ++ X)) acc (with_rest (lex_nexts2 p ls) X) (rev (lex_items2 p ls) ++ acc).
+Proof. exact run_prefix2. Qed.
+Print Assumptions C18_run_prefix2.
+
+(* non-vacuity on a real file: sample 42 header (tools/harness/data/hdr.txt), empty line, int main(void) with a local `count`,
+   a // comment and a return statement; both occurrences of `count` are rename sites, the conditions hold by computation and
+   the items claimed for the prefix are the ones the tokenizer model produces *)
+Theorem C18_header_program_meets_conditions :
+  let nouni := fun _ : N => false in
+  raws2 hdemo_prefix1 ++ s "count" ++ demo_rest1 = hdemo_file /\
+  raws2 hdemo_prefix2 ++ s "// done" ++ [10; 9]%N ++ s "return (count);" ++ [10]%N ++ s "}" ++ [10]%N = hdemo_file /\
+  raws2 hdemo_prefix3 ++ s "count" ++ hdemo_rest3 = hdemo_file /\
+  lexs_ok2 hdemo_prefix1 (s "count" ++ demo_rest1) = true /\ lexs_ok2 hdemo_prefix1 (s "iff_2" ++ demo_rest1) = true /\
+  ident_site 99%N (s "ount") demo_rest1 /\ ident_site 105%N (s "ff_2") demo_rest1 /\
+  lexs_ok2 hdemo_prefix3 (s "count" ++ hdemo_rest3) = true /\ lexs_ok2 hdemo_prefix3 (s "iff_2" ++ hdemo_rest3) = true /\
+  ident_site 99%N (s "ount") hdemo_rest3 /\ ident_site 105%N (s "ff_2") hdemo_rest3 /\
+  lexs_ok2 hdemo_prefix2 (s "// done" ++ [10; 9]%N ++ s "return (count);" ++ [10]%N ++ s "}" ++ [10]%N) = true /\
+  plain_content KLine (s " done") = true /\ plain_content KLine (s " };<(") = true /\
+  match lex nouni nouni hdemo_file with
+  | Ok (items, _) => firstn (List.length hdemo_prefix3) items = lex_items2 pos0 hdemo_prefix3 /\
+                     List.length header_prefix = 22%nat /\ line (lex_nexts2 pos0 hdemo_prefix3) = 18 /\ col (lex_nexts2 pos0 hdemo_prefix3) = 13
+  | _ => False
+  end.
+Proof. exact header_program_meets_conditions. Qed.
+Print Assumptions C18_header_program_meets_conditions.
+
+(* ... and with a string literal in the prefix: header, a global with a string initialiser, int main *)
+Theorem C18_string_program_meets_conditions :
+  let nouni := fun _ : N => false in
+  raws2 sdemo_prefix ++ s "main" ++ sdemo_rest = sdemo_file /\
+  lexs_ok2 sdemo_prefix (s "main" ++ sdemo_rest) = true /\ lexs_ok2 sdemo_prefix (s "nul_" ++ sdemo_rest) = true /\
+  ident_site 109%N (s "ain") sdemo_rest /\ ident_site 110%N (s "ul_") sdemo_rest /\
+  match lex nouni nouni sdemo_file with
+  | Ok (items, _) => firstn (List.length sdemo_prefix) items = lex_items2 pos0 sdemo_prefix /\
+                     line (lex_nexts2 pos0 sdemo_prefix) = 15 /\ col (lex_nexts2 pos0 sdemo_prefix) = 5
+  | _ => False
+  end.
+Proof. exact string_program_meets_conditions. Qed.
+Print Assumptions C18_string_program_meets_conditions.
